@@ -424,12 +424,20 @@ pub fn co_execute(
 /// true if the source has undefined / unspecified behaviour on this input (RefC, ISO reading):
 /// two correct compilations may then legitimately differ
 pub fn source_is_undefined(prog: &Program, img: &Image, init: &Init, signed_chars: bool) -> bool {
-    let rd = [refc::READINGS[0]];
-    match refc::run_all_ex(prog, &img.layout, init, REFC_STEPS, &rd, signed_chars, false) {
-        Verdict::Agreed(_) => false,
-        Verdict::Timeout => false,
-        _ => true,
+    // every reading is consulted: the compiled code may follow any of them through a condition,
+    // and a path with undefined behaviour in one reading is enough to make differences legitimate
+    for rd in refc::READINGS.iter() {
+        let mut it = match refc::Interp::new(prog, &img.layout, *rd, init, REFC_STEPS) {
+            Ok(i) => i,
+            Err(_) => return true,
+        };
+        it.set_signed_char_default(signed_chars);
+        match it.run_main() {
+            Ok(_) | Err(refc::Abort::Timeout) => {}
+            Err(_) => return true,
+        }
     }
+    false
 }
 
 pub fn co_execute_f(
